@@ -184,6 +184,9 @@ def absmax(chk):
             continue
         e = p.end[1]
         site = f"{mi.rel}:{p.end[2]}"
+        e, floors = scales.peel_floor(e)
+        if floors:
+            chk.bad("C12.R5", site, "absmax_scale", "scale has a lower bound", f"absmax_scale floors the scale ({floors}): the calibrated scale is not max|x|/qmax for small-magnitude batches", "a batch whose absmax is below qmax x floor")
         if not (isinstance(e, ast.BinOp) and isinstance(e.op, ast.Div)):
             chk.bad("C12.R5", site, "absmax_scale", "scale is a quotient", f"absmax_scale returns `{U(e)[:80]}`, not range / qmax", "any tensor")
             continue
